@@ -408,6 +408,58 @@ def check_reject(case):
     return (f"reject.{kind}", f"testbench `{kind}` was accepted", w)
 
 
+SAVE_GIVEN = ["mode:ALL", "mode:NONE", "mode:SELECTED", "sig", "sigs", "name:xtop.n1", "name:all", "name:none", "name:selected",
+              "name:ALL", "name:NONE", "name:None", "name:0", "name:s", "names:a,b,c", "names:all", "names:none,all",
+              "names:s,t"]
+
+
+def check_save_target(case):
+    """every documented form of save target, as GIVEN (not as stored after validation): a mode stays that mode, a Signal
+    its name, a name that name - also names that read like a mode ("all", "none", "selected"), like a number, or like one
+    of the testbench's signals"""
+    import hdl21 as h
+    from hdl21.sim import data as d
+    import hdl21.sim as hs
+    _, given, route = case
+    w = {"case": repr(case)}
+    tb = mk_tb("TbSave")
+    kind, _, text = given.partition(":")
+    if kind == "mode":
+        targ, want = getattr(d.SaveMode, text), ("mode", getattr(d.SaveMode, text).name)
+    elif kind == "sig":
+        targ, want = tb.s, ("signal", "s")
+    elif kind == "sigs":
+        targ, want = [tb.s, tb.t], ("signal", "s,t")
+    elif kind == "name":
+        targ, want = text, ("signal", text)
+    else:
+        targ, want = text.split(","), ("signal", text)
+    try:
+        if route == "ctor":
+            sim = d.Sim(tb=tb, attrs=[d.Op(name="op1"), d.Save(targ)])
+        elif route == "method":
+            sim = d.Sim(tb=tb, attrs=[d.Op(name="op1")])
+            sim.save(targ)
+        else:
+            ns = {"tb": tb, "op1": d.Op(), "sv": d.Save(targ)}
+            sim = d.sim(type("SaveSim", (), ns))
+        inp = hs.to_proto(sim)
+    except Exception as e:
+        if kind == "mode" and text == "SELECTED":
+            return None      # (VLSIR has no counterpart of this mode: a refusal is all the exporter can do)
+        return (f"save-target.raises.{type(e).__name__}", f"{case!r}: a documented save target was refused: "
+                                                          f"{type(e).__name__}: {str(e)[:120]}", w)
+    saves = [c.save for c in inp.ctrls if c.WhichOneof("ctrl") == "save"]
+    if len(saves) != 1:
+        return ("save-target.count", f"{case!r}: {len(saves)} save entries exported", w)
+    which = saves[0].WhichOneof("save")
+    got = (which, hs.proto.vsp.Save.SaveMode.Name(saves[0].mode) if which == "mode" else saves[0].signal) \
+        if which else (None, None)
+    if got != want:
+        return ("save-target.value", f"{case!r}: Save({targ!r}) exported as {got}, expected {want}", w)
+    return None
+
+
 def cases(tier, seed):
     n = 300 if tier == "thorough" else 40
     k = 0
@@ -451,6 +503,11 @@ def run(ctx):
                     check_reject, rule="testbenches without exactly one scalar port are rejected, also when the extra "
                                        "ports only appear through elaboration (bundle ports)", bound="8 programs",
                     key_of=repr)
+    ctx.run_bounded("save-targets", [("save", g, r) for g in SAVE_GIVEN for r in ("ctor", "method", "class")], check_save_target,
+                    rule="every documented form of save target as GIVEN (modes, a Signal, a list of Signals, a name, a list "
+                         "of names - incl. names that read like a mode, a number or a testbench signal) x three ways of "
+                         "attaching it (constructor, Sim.save, class-defined): exported kind and value == the given ones",
+                    bound="18 targets x 3 routes", key_of=repr)
     ctx.run_bounded("re-export", [("reexport", k) for k in ("export-add-export", "shared-in-list", "shared-separately", "edit-in-place")],
                     check_reexport, rule="export, add unnamed analyses, export twice more; one unnamed analysis object "
                                          "shared by two Sims exported in one list / one by one: generated names distinct "
@@ -464,6 +521,6 @@ def replay(payload):
     if not c:
         return 2
     case = eval(c)
-    r = check_reject(case) if case[0] == "reject" else check_reexport(case) if case[0] == "reexport" else check_sim(case)
+    r = check_save_target(case) if case[0] == "save" else check_reject(case) if case[0] == "reject" else check_reexport(case) if case[0] == "reexport" else check_sim(case)
     print("replay:", r)
     return 1 if r else 0
